@@ -188,7 +188,7 @@ Definition judge (c : c18case) : N :=
       (* the model: [peers] sockets accepted whose negotiations stay pending,
          then a fresh connection whose negotiation completes: it is served
          (ConnProofs.fresh_connection_unaffected) and the others still pend *)
-      let n := N.to_nat (N.min peers 64) in
+      let n := N.to_nat (N.min peers 4096) in
       let evs := map (fun k => Loop (AcceptResult (Ok (N.of_nat (S k))))) (seq 0 n)
                  ++ open_and_send true 0 [] in
       let s := srv_run areq (fun _ => ([health_areq], TIncomplete [])) (respond Detached)
